@@ -219,7 +219,7 @@ Record invB (s : state) : Prop := { IB0 : invB0 s; IB1 : invB1 s; IB2 : invB2 s;
 Lemma cnt_idle f progs : (forall p, f (mkT Idle p []) = false) -> cnt f (map (fun p => mkT Idle p []) progs) = 0.
 Proof. intro H. unfold cnt. induction progs as [|p l IH]; cbn; [reflexivity|]. rewrite H. exact IH. Qed.
 
-Lemma invB_init progs : invB (init progs).
+Lemma invB_init g progs : invB (init_g g progs).
 Proof.
   split.
   - intros k e H. cbn in H. discriminate.
@@ -232,7 +232,7 @@ Qed.
 
 Lemma invB_reach progs s : reach progs s -> invB s.
 Proof.
-  apply reach_ind; [apply invB_init|].
+  apply reach_ind; [intro g; apply invB_init|].
   intros s0 t c s1 [I0 I1 I2 I3 I4] H. apply step_inv in H. destruct H as [th [l [Ht H]]].
   split.
   - eapply invB0_step; eauto.
